@@ -166,9 +166,9 @@ def matrix_program(body):
 
 
 TR_INPUTS = [
-    '(Tr(2), Tr(1), Tr(3), TrSeq([Tr(1), Tr(2), Tr(0)]), Obj(Tr(0), Tr(5)), {"k": Tr(1), "m": Tr(2)})',
-    '(Tr(0), Tr(0), Tr(0), TrSeq([]), Obj(Tr(1), Tr(0)), {"k": Tr(0), "m": Tr(-1)})',
-    '(Tr(-1), Tr(4), Tr(1), TrSeq([Tr(5), Tr(1)]), Obj(Tr(2), Tr(2)), {"k": Tr(3), "m": Tr(0)})',
+    '(Tr(2), Tr(1), Tr(3), TrSeq([Tr(1), Tr(2), Tr(0)]), Obj(Tr(0), Tr(5)), {"k": Tr(1), "m": Tr(2), "k.m": Tr(0), "k[0]": Tr(0)})',
+    '(Tr(0), Tr(0), Tr(0), TrSeq([]), Obj(Tr(1), Tr(0)), {"k": Tr(0), "m": Tr(-1), "k.m": Tr(1), "k[0]": Tr(0)})',
+    '(Tr(-1), Tr(4), Tr(1), TrSeq([Tr(5), Tr(1)]), Obj(Tr(2), Tr(2)), {"k": Tr(3), "m": Tr(0), "k.m": Tr(2), "k[0]": Tr(0)})',
 ]
 
 
